@@ -2072,6 +2072,112 @@ async fn a_field_mask_hides_a_value_from_the_result_cap_as_well() {
     );
 }
 
+/// Alice, Tea and Coffee, and one Proposition saying which of the two Alice
+/// prefers. Ids are the same whichever it is: C-1, C-2, C-3, P-1, A-1.
+async fn space_where_alice_prefers(name: &str, thing: &str) -> CognitiveNexus {
+    let nexus = stocked(name).await;
+    let created = run_as(
+        &nexus.system_session(),
+        &format!(
+            r#"MUTATE {{
+                CREATE CONCEPT ?alice {{ TYPE "Person" NAME "Alice" }}
+                CREATE CONCEPT ?tea {{ TYPE "Person" NAME "Tea" }}
+                CREATE CONCEPT ?coffee {{ TYPE "Person" NAME "Coffee" }}
+                ENSURE PROPOSITION ?p (?alice, "prefers", ?{thing})
+                CREATE ASSERTION ?a {{
+                    SET FIELDS {{proposition: ?p, asserted_by: ?alice,
+                                stance: "support", mode: "stated", confidence: 0.9}}
+                }}
+            }}"#
+        ),
+    )
+    .await;
+    assert_eq!(created.status, TopLevelStatus::Succeeded);
+    nexus
+}
+
+/// [`run_as`] with `:alice`, `:tea` and `:coffee` bound to the three Concepts:
+/// a tuple endpoint is a reference, never a Literal.
+async fn run_bound(session: &Session, command: &str) -> Response {
+    let request: Request = serde_json::from_value(serde_json::json!({
+        "kip": "2.0",
+        "operations": [{
+            "command": command,
+            "parameters": {
+                "alice": {"id": "C-1"}, "tea": {"id": "C-2"}, "coffee": {"id": "C-3"},
+            },
+        }],
+    }))
+    .unwrap();
+    let parsed = anda_kip::parse_kip(command).unwrap_or_else(|err| panic!("{command}\n{err}"));
+    session
+        .execute(parsed, &request, &request.operations[0])
+        .await
+}
+
+#[tokio::test]
+async fn a_belief_slot_does_not_list_a_proposition_the_caller_may_not_read() {
+    // §104: outside the query universe means not a candidate value either.
+    // BELIEF SLOT took its candidates straight from the index, so a secret
+    // Proposition was listed by id with an `insufficient` projection.
+    let nexus = space_where_alice_prefers("belief_slot_hidden", "tea").await;
+    let owner = nexus.system_session();
+    let second = run_bound(
+        &owner,
+        r#"ENSURE PROPOSITION ?p (:alice, "prefers", :coffee)"#,
+    )
+    .await;
+    assert_eq!(second.status, TopLevelStatus::Succeeded);
+    owner
+        .classify(
+            DEFAULT_SPACE,
+            ElementId::new(anda_kip::ElementKind::Proposition, 2),
+            "secret",
+        )
+        .await
+        .unwrap();
+
+    let gov = nexus.governance();
+    let reader = agent(gov, "kip:principal:reader").await;
+    gov.create_grant(
+        GrantDraft {
+            space_id: DEFAULT_SPACE.into(),
+            grantee_principal: reader.clone(),
+            actions: vec!["read".into(), "project".into()],
+            constraints: AuthorityConstraints {
+                max_classification: "internal".into(),
+                ..Default::default()
+            },
+            ..Default::default()
+        },
+        SYSTEM_PRINCIPAL,
+    )
+    .await
+    .unwrap();
+    let query = r#"FIND(?slot) WHERE { ?slot BELIEF SLOT (:alice, "prefers") }"#;
+
+    let listed = |response: &Response| -> Vec<String> {
+        response.first_result().unwrap()[0]["candidate_projections"]
+            .as_array()
+            .unwrap()
+            .iter()
+            .map(|projection| projection["proposition_id"].as_str().unwrap().to_string())
+            .collect()
+    };
+    let restricted = run_bound(&nexus.session(AuthContext::principal(&reader)), query).await;
+    assert_eq!(restricted.status, TopLevelStatus::Succeeded);
+    assert_eq!(listed(&restricted), vec!["P-1".to_string()]);
+    assert!(
+        !serde_json::to_string(restricted.first_result().unwrap())
+            .unwrap()
+            .contains("P-2"),
+        "the secret Proposition is not named anywhere in the answer"
+    );
+    // The owner sees both candidates.
+    let whole = run_bound(&owner, query).await;
+    assert_eq!(listed(&whole), vec!["P-1".to_string(), "P-2".to_string()]);
+}
+
 #[tokio::test]
 async fn a_read_grants_max_results_caps_the_response() {
     let nexus = stocked("max_results").await;
